@@ -56,6 +56,10 @@ const VALID_MAP = JSON.stringify({ version: 3, sources: ['orig.ts'], names: ['n'
 const INDEX_MAP = JSON.stringify({ version: 3, sections: [{ offset: { line: 0, column: 0 }, map: JSON.parse(VALID_MAP) }] })
 const b64 = s => Buffer.from(s).toString('base64')
 
+// pieces of hostile reference texts: incomplete / malformed percent escapes at every distance from the end, separators,
+// data-URL fragments, blanks, quotes, non-ASCII, comment terminators
+const URL_TOKENS = ['%', '%2', '%20', '%E2%82%AC', '%E2%82', '%zz', '%%', '/', '..', '.', 'x', 'a', '.map', '.js.map', '?', '#', ':', '//', 'data:', 'application/json', ';base64,', ';charset=utf-8', ',', ' ', '\t', 'é', '😀', '\\', '"', "'", '*', '\u2028', 'a'.repeat(300), 'eyJ2ZXJzaW9uIjozfQ==', '=', '+', '-', '_']
+
 // a source-map reference + the reader plan that decides what reading it yields
 function mapReference (rng, file) {
   const r = rng.int(24)
@@ -78,8 +82,8 @@ function mapReference (rng, file) {
   else if (r === 6) url = 'data:text/plain,hello'
   else if (r === 7) url = 'data:application/json;charset=utf-8;base64,' + b64(VALID_MAP)
   else if (r === 8) url = 'data:,'
-  else if (r === 9) url = ' ' + rng.pick(DICT) + rng.pick(DICT)
-  else if (r === 10) url = rng.pick(['http://example.com/x.js.map', 'dist/파일 v2', 'aé b', '🗺🗺.map \'the map\'', '€\u3000v2', 'ñ.js.map generated', 'x.map "q"', 'é', '  spaced.map  ', 'file:///abs/x.map', 'x.map?q=é#ü', '%E2%82%AC.map'])
+  else if (r === 9) url = rng.bool(0.3) ? ' ' + rng.pick(DICT) + rng.pick(DICT) : Array.from({ length: rng.range(1, 6) }, () => rng.pick(URL_TOKENS)).join('')
+  else if (r === 10) url = rng.pick(['http://example.com/x.js.map', 'dist/파일 v2', 'aé b', '🗺🗺.map \'the map\'', '€\u3000v2', 'ñ.js.map generated', 'x.map "q"', 'é', '  spaced.map  ', 'file:///abs/x.map', 'x.map?q=é#ü', '%E2%82%AC.map', 'my%20file.js.map', 'x.map%2', 'a%b', '100%', '%', 'a%2'])
   else if (r <= 16) { url = '/abs/maps/' + rng.pick(['x.js.map', 'ñ.map', 'dir/']); files[url] = entry } else {
     url = rng.pick(['x.js.map', './x.js.map', '../maps/x.js.map', 'sub/dir/x.map', '.', '..', 'x.js.map?v=1'])
     // register under every path the rewriter could resolve it to
